@@ -9,13 +9,13 @@ def commits():
 TB="x/tools go/ssa (Go semantics), the nriverif VC generator, z3 5.1.0 / cvc5 1.0.3 / z3 4.8.12; library models and every trusted/assumed contract are listed in the evidence file under assumptions"
 claimed={
  "C01": dict(text="Deductive proof, for all inputs and any number of plugins per call, that the ownership ledger (27 claim + 5 clear functions, 32 wrappers, ownersFor) grants an item to at most one plugin and that every creation-path adjust* function under contract returns an error when a set item is already owned and never changes the reply for it; obligations are generated from the SSA of the real functions and discharged by SMT solvers.",
-             note="Functions under contract: the ledger, adjustAnnotations/Mounts/Devices/CgroupsPath/OomScoreAdj/Args/CDIDevices/Rlimits/Resources and updateResources. adjustEnv is not under contract; for mounts/devices the claim is: success implies no set item was owned unless the same response removes it, and an owner that appears is the calling plugin (DESIGN.md S3/S4). result.apply is a trusted frame. "+TB, ref="5 C01"),
+             note="Functions under contract: the ledger, adjustAnnotations/Mounts/Devices/Env/CgroupsPath/OomScoreAdj/Args/CDIDevices/Rlimits/Resources and updateResources. For mounts/devices/env the claim is: success implies no set item was owned unless the same response removes it, and an owner that appears is the calling plugin (DESIGN.md S3/S4). result.apply is a trusted frame. "+TB, ref="5 C01"),
  "C02": dict(text="Deductive proof that claims succeed whenever the item is free (no spurious conflicts), that an error implies a real earlier owner, and that a removal marker releases the claim, for the functions under contract.",
-             note="Same function set as C01. For annotations, mounts and devices a removal (with or without a set) releases the earlier claim; for mounts/devices this uses the ledger/list representation invariant, which is proved preserved and assumed for the initial (empty) state. adjustEnv is not covered. "+TB, ref="5 C02"),
- "C03": dict(text="Deductive proof of the merge postconditions (reply' = merge(reply, plugin response)) of the creation-path functions under contract: scalars, args, hooks, rlimits, CDI devices, all resource fields, hugepages, unified, annotations (set wins over removal, lone removal deletes and is forwarded), and for mounts/devices: every set entry is in the reply, an earlier entry removed by the response is gone, a removal without a set is forwarded to the runtime.",
-             note="Environment variables (adjustEnv) are not covered; for mounts/devices the clause that untouched entries are kept is not claimed (solvers return unknown); the composition with the OCI generator is argued from C13, not proved as one theorem. "+TB, ref="5 C03"),
+             note="Same function set as C01. For annotations, mounts, devices and environment variables a removal (with or without a set) releases the earlier claim; for mounts/devices this uses the ledger/list representation invariant, which is proved preserved and assumed for the initial (empty) state. Conflict-freedom for the list families is not claimed. "+TB, ref="5 C02"),
+ "C03": dict(text="Deductive proof of the merge postconditions (reply' = merge(reply, plugin response)) of the creation-path functions under contract: scalars, args, hooks, rlimits, CDI devices, all resource fields, hugepages, unified, annotations (set wins over removal, lone removal deletes and is forwarded), and for mounts/devices/env: every set entry is in the reply, an earlier entry removed by the response is gone, a removal without a set is forwarded to the runtime.",
+             note="For mounts/devices/env the clause that untouched entries are kept is not claimed (solvers return unknown); the composition with the OCI generator is argued from C13, not proved as one theorem. "+TB, ref="5 C03"),
  "C04": dict(text="Deductive proof that the container view shown to later plugins is updated exactly like the reply for the functions under contract.",
-             note="Same function set as C03; for mounts/devices: every set entry is in the view, no nil entry, and nothing the response removes or sets survives the filter (loop invariant). adjustEnv is not covered. "+TB, ref="5 C04"),
+             note="Same function set as C03; for mounts/devices: every set entry is in the view, no nil entry, and nothing the response removes or sets survives the filter (loop invariant); for environment variables only the filter half (keys are the text before the first '='). "+TB, ref="5 C04"),
  "C05": dict(text="Deductive proof of the update collection: getContainerUpdate (one entry per target id, self-update during creation rejected, own container kept out of the list), updateResources (every field claimed from the ledger, staged on a copy, committed to the entry and - for the container being updated - to the request only if every claim succeeded; on failure nothing is committed), result.update (an ignore-failure update never fails the request; the collected state stays well formed), the three response constructors (own entry appended last) and the collect* constructors (normalised request, empty collection).",
              note="result.apply/adjust are still used through a trusted write-set frame by the request loops, so the preconditions of result.update (a plugin's update shares no object with the collected state) are assumed there, not proved. Claims of a conflicting ignore-failure update stay in the ledger (observation, DESIGN.md). "+TB, ref="5 C05"),
  "C14": dict(text="Deductive proof of the optional-value constructors String/Int32/UInt32/Int64/UInt64/Bool: nil maps to unset, a value of the wrapper's own type to exactly that value in a fresh wrapper.",
